@@ -34,4 +34,8 @@ for pid, mod in mods:
     except Exception as ex:
         print("setup of %s: %s" % (pid, ex))
     sys.path.pop(0)
-sys.exit(0 if rc == 0 else 1)
+if rc != 0:
+    # a Coq file that no longer compiles is a verdict about ONE property (its check re-proves its own property file
+    # and reports the broken theorem); it must not prevent the other checks from being set up
+    print("setup: the Coq build reported errors (see above); the affected property's check will report them")
+sys.exit(0)
